@@ -13,6 +13,13 @@
 use vstd::prelude::*;
 verus! {
 
+/// R6 target: panic!/unreachable!/unimplemented!/todo! become a call that must be proved unreachable.
+/// (No such macro occurs in the extracted functions today: R6 reports 0 hits.)
+#[verifier::external_body]
+pub fn vpanic() -> !
+    requires false
+{ panic!() }
+
 // ---------------------------------------------------------------------------------------------
 // Tok: opaque stand-in for the `&'a str` tokens handed out by the tokenizer.  String *content* is
 // outside Verus; the only facts kept are "is it empty" and "which literal of the grammar is it".
